@@ -267,7 +267,8 @@ func c19Apply(g *Graph, m *c19Model, op int, n int, hv bool, sfx string) string 
 
 // HarnessC19: n vertices; op 0..5 single mutation; 6 Copy (+ mutation of the
 // copy, then of the original); 7 Reverse (+ mutation through the view);
-// 8 Reverse twice; 9 two mutations in sequence (sanity of the inductive step).
+// 8 Reverse twice; 9 two mutations in sequence (sanity of the inductive step);
+// 10 Reverse of a graph with at most one vertex, then three mutations through the view.
 // hv != 0 adds hashable vertices (identity != hash code).
 func HarnessC19(n, op, hv int) {
 	g, m, desc := c19Pre(n, hv != 0)
@@ -315,6 +316,32 @@ func HarnessC19(n, op, hv int) {
 		what = "Reverse.Reverse"
 		c19Check(rr, m, "C19.reverse-twice-identity")
 		vnAssert(len(rr.hash) == len(g.hash), "C19.reverse-twice-same-vertices")
+	case op == 10:
+		// a view taken when the graph holds little or nothing, then a HISTORY of three
+		// mutations through the view: both sides must stay mirrors after every step
+		// (one step from an empty graph cannot create an edge, so the one-step
+		// harness of op 7 cannot see which way a view of an empty graph points)
+		if g.hash == nil {
+			vnAssume(false)
+		}
+		cnt := 0
+		for i := 0; i < n; i++ {
+			if m.v[i] {
+				cnt++
+			}
+		}
+		if cnt > 1 {
+			vnAssume(false)
+		}
+		r := g.Reverse()
+		rm := m.reversed()
+		what = "Reverse (of a graph with <=1 vertex)"
+		for step := 0; step < 3; step++ {
+			sub := vnChoice("subop", 6, step)
+			what += "; view." + c19Apply(r, rm, sub, n, hv != 0, fmt.Sprint(step))
+			c19Check(r, rm, "C19.view-history-post")
+			c19Check(g, rm.reversed(), "C19.original-sees-view-history")
+		}
 	case op == 9:
 		s1 := vnChoice("subop", 6)
 		what = c19Apply(g, m, s1, n, hv != 0, "")
